@@ -58,7 +58,7 @@ def op_strategies(n_names: int = 4, max_sel: int = 9):
         st.just("set-at"), st.sampled_from(("set_member", "set_member", "setitem")), st.sampled_from(FORMS),
         _weighted((1, sel), (2, tref)), klen, fresh,
     ).map(list)
-    resolve_op = st.tuples(st.just("resolve"), sel, st.sampled_from(("resolve_target", "target"))).map(list)
+    resolve_op = st.tuples(st.just("resolve"), sel, st.sampled_from(("resolve_target", "target", "final_target"))).map(list)
     retarget_op = st.tuples(
         st.just("retarget"), sel, st.sampled_from(("obj", "obj", "obj", "self", "same-obj", "same-alias")), sel
     ).map(list)
@@ -71,7 +71,7 @@ def op_strategies(n_names: int = 4, max_sel: int = 9):
     alias_resolved = st.tuples(
         st.tuples(st.just("set"), st.sampled_from(APIS_SET), st.sampled_from(FORMS), sel, names, klen,
                   st.tuples(st.just("alias-path"), sel, pk).map(list)).map(list),
-        st.tuples(st.just("resolve"), sel, st.sampled_from(("resolve_target", "target"))).map(list),
+        st.tuples(st.just("resolve"), sel, st.sampled_from(("resolve_target", "target", "final_target"))).map(list),
     ).map(list)
     # replace a module by a module with another file path (regular/stubs merge), fresh or moved
     stub_op = st.tuples(
@@ -218,6 +218,9 @@ def alphabet(level: int):
             ops.append(["set", "setitem", "tuple", cont, name, len(path), val])
             if level >= 1:
                 ops.append(["set", "set_member", "str", cont, name, len(path), val])
+    # an alias whose target is another (possibly still lazy) alias: chain b.a -> a.c -> ...
+    ops.append(["set", "set_member", "str", ["b"], "a", 1, ["alias-obj", ["a", "c"], False]])
+    ops.append(["set", "setitem", "tuple", ["b"], "a", 2, ["alias-obj", ["a", "c"], False]])
     # moves: the detached subtree keeps its own name, so one operation per container
     conts = []
     for path in inner:
